@@ -14,6 +14,7 @@ def compact(r):
     if e == 'mreq': return '  m<- k=%s %s c=%s tok=%s q=%s' % (r['k'], r['subj'], r['c'], r['tok'], r['q'])
     if e == 'mres': return '  m-> k=%s %s out=%s kind=%s %s' % (r['k'], r['t'], r['out'], r['kind'], json.dumps(r['val'] or r['list']))
     if e == 'mevt': return '  m-> EVT %s.%s.%s seq=%s idx=%s val=%s vals=%s %s' % (r['ns'], r['n'] or r['c'], r['ev'], r['seq'], r['idx'], json.dumps(r['val']), json.dumps(r['vals']), r.get('tok',''))
+    if e in ('quiescent','final') and os.environ.get('FULL'): return '  ' + json.dumps(r)
     if e in ('quiescent','final'): return '  %s subs=%s cache=%s mqsubs=%s g=%s/%s' % (e.upper(), json.dumps(r['subs']), json.dumps(r['cache']), r['mqsubs'], r['gres'], r['gsubs'])
     return '  ' + json.dumps(r)
 
